@@ -187,7 +187,7 @@ fn judge_a(rep: &Reporter, prefix: &str, method: &str, ct: &Option<Vec<String>>,
 pub fn check(rep: &Reporter) {
 	let thorough = rep.tier.thorough();
 	rep.set_rule(
-		"(A) 10 HTTP methods × content-type values (the six accepted spellings in every letter-case variant — all 2^k for k ≤ 15 letters, 4 styles per word for longer ones —, 22 near misses, missing header, duplicated header) with a fixed valid call as body, and (A') every method × {none, the accepted spellings in 3 letter-case styles, every near miss, 4 duplicate pairs} as raw HTTP/1.1 requests through Server::start over loopback TCP; (B) 19 bodies (calls, notification, batches, invalid, truncated, non-JSON, 0/1/126/127/128 leading blanks) × splits into consecutive chunks (quick: all splits into ≤3 chunks, thinned for bodies > 90 bytes, and the 4-chunk splits touching an end or on a stride; thorough: all splits into ≤4 chunks of bodies ≤ 64 bytes and into 5 chunks of bodies ≤ 40 bytes) × {no extra chunk, an empty chunk or a blank-only chunk inserted at every boundary incl. front and back} × Content-Length {absent, exact}; differential oracle: (status, body, invocation log) equals the single-frame request of the same bytes. Distinct by (method, content-type) resp. (body, frame sequence, content-length); all non-trivial.",
+		"(A) 10 HTTP methods × content-type values (the six accepted spellings in every letter-case variant — all 2^k for k ≤ 15 letters, 4 styles per word for longer ones —, 22 near misses, missing header, duplicated header) with a fixed valid call as body, and (A') every method × {none, the accepted spellings in 3 letter-case styles, every near miss, 4 duplicate pairs} as raw HTTP/1.1 requests through Server::start over loopback TCP; (B) 19 bodies (calls, notification, batches, invalid, truncated, non-JSON, 0/1/126/127/128 leading blanks) × splits into consecutive chunks (quick: all splits into ≤3 chunks, thinned for bodies > 90 bytes, and the 4-chunk splits touching an end or on a stride; thorough: all splits into ≤4 chunks of bodies ≤ 64 bytes and into 5 chunks of bodies ≤ 40 bytes) × {no extra chunk, an empty chunk or a blank-only chunk inserted at every boundary incl. front and back} × Content-Length {absent, exact}; differential oracle: (status, body, invocation log) equals the single-frame request of the same bytes; the 1- and 2-chunk splits are repeated on a service whose max_request_body_size equals the body length. Distinct by (method, content-type) resp. (body, frame sequence, content-length); all non-trivial.",
 	);
 	rep.assume("the tower service Server uses per connection is called directly; hyper's own framing is not in the loop");
 	let cfg = || srv::cfg_builder().build();
@@ -439,6 +439,33 @@ pub fn check(rep: &Reporter) {
 					);
 				}
 				local.case_unique(class);
+			}
+		}
+		// the same with max_request_body_size equal to the body length: the body is within the limit, so the answer must
+		// still not depend on the split or on the presence of Content-Length (splits into at most two chunks)
+		if cuts.len() <= 1 && !body.is_empty() {
+			let mut exact = srv::http_service(srv::cfg_builder().max_request_body_size(body.len() as u32).build());
+			let (bo, bl) = rt.block_on(call(&mut exact, srv::post(vec![body.clone()], None)));
+			if let Ok(bo) = bo {
+				for with_cl in [false, true] {
+					let req = srv::post(frames.clone(), if with_cl { Some(body.len().to_string()) } else { None });
+					let (out, log) = rt.block_on(call(&mut exact, req));
+					let same = matches!(&out, Ok(o) if *o == bo) && log == bl;
+					if !same {
+						rep.violation(
+							&format!("chunking:limit-equals-body-length{}", if with_cl { ":with-content-length" } else { "" }),
+							&format!(
+								"max_request_body_size = body length = {}: frames {:?} answered {:?} (handlers {log:?}); one frame without Content-Length: status {} (handlers {bl:?})",
+								body.len(),
+								frames.iter().map(|x| String::from_utf8_lossy(x).to_string()).collect::<Vec<_>>(),
+								out.as_ref().map(|o| o.status),
+								bo.status
+							),
+							json!({"engine":"ENUM","part":"B-exact-limit","body": String::from_utf8_lossy(body), "frames": frames.iter().map(|x| String::from_utf8_lossy(x).to_string()).collect::<Vec<_>>(), "content_length": with_cl}),
+						);
+					}
+					local.case_unique(if same { "exact-limit:same" } else { "exact-limit:differs" });
+				}
 			}
 		}
 		if i == 1000 {
